@@ -47,7 +47,7 @@ SPEC = dict(
     ],
     assumptions=["sep cases: token lines are monotone along the token sequence, so the same-line-as-previous relation determines every "
                  "line comparison the parser makes (parser.go: run, ndReturn, ndIdentifier, hasMoreStatements) - by reading, not proved",
-                 "the EOF token has no first character: its (stale) Pos/Lpos are compared between model and code but not against a true position"],
+                 "the EOF token has no first character: the position asked for is the end of the input (the code's stale Pos/Lpos there is the known finding eof-stale-position); an EOF that follows an error token (the lexer has stopped) is compared between model and code only"],
     decode=decode,
 )
 
